@@ -241,20 +241,20 @@ theorem RCx_dropTableEdge {w : Nat → Nat} {h : Heap} {j : Nat} {m : SNode}
 
 macro "rcarith" : tactic => `(tactic| first | omega | (simp only []; omega))
 section
-variable {a b : Nat} {sh0 : Nat → Option Node} {old : List Nat} {ext : Nat → Nat}
+variable {a b : Nat} {P : Nat → Prop} {sh0 : Nat → Option Node} {old : List Nat} {ext : Nat → Nat}
 
 theorem J.bel_live {sh : Nat → Option Node} {up lo todo : List Nat}
-    (hj : J a b sh0 old ext sh up lo todo) {x : Edge} (hx : Bel a b sh0 x) {k : Nat}
+    (hj : J a b P sh0 old ext sh up lo todo) {x : Edge} (hx : Bel a b P sh0 x) {k : Nat}
     (hk : x = .inner k) : sh k ≠ none := by
   subst hk
-  obtain ⟨n, hn, h1, h2⟩ := hx
+  obtain ⟨n, hn, h1, h2, _⟩ := hx
   rw [hj.frame k n hn h1 h2]; simp
 
 /-- an entry of `old_upper` whose children are both below is a node that only moves: it is
 unvisited or already in the new lower table, never a rewritten node -/
 theorem J.old_bel {sh : Nat → Option Node} {up lo todo : List Nat}
-    (hp : Pre a b sh0 old) (hj : J a b sh0 old ext sh up lo todo) {j l : Nat} {x y : Edge}
-    (hjo : j ∈ old) (hs : sh j = some ⟨l, x, y⟩) (hx : Bel a b sh0 x) (hy : Bel a b sh0 y) :
+    (hp : Pre a b P sh0 old) (hj : J a b P sh0 old ext sh up lo todo) {j l : Nat} {x y : Edge}
+    (hjo : j ∈ old) (hs : sh j = some ⟨l, x, y⟩) (hx : Bel a b P sh0 x) (hy : Bel a b P sh0 y) :
     (j ∈ lo ∨ j ∈ todo) ∧ l = a := by
   rcases hj.oldC j hjo with h | h | h
   · obtain ⟨n, h1, _, h3⟩ := hj.todo_live hp h
@@ -272,11 +272,11 @@ theorem J.old_bel {sh : Nat → Option Node} {up lo todo : List Nat}
       rw [hs] at g5; cases g5
       exact hj.rew_not_bel hp g3 hl' g6 g7 ⟨hx, hy⟩
 
-theorem mkChild_spec {al : Heap → Nat} (hal : ∀ h : Heap, h.get? (al h) = none) (hp : Pre a b sh0 old)
-    {h : Heap} {up lo todo : List Nat} (hj : J a b sh0 old ext h.sh up lo todo)
-    {w : Nat → Nat} (hr : RCx w h) {x y : Edge} (hx : Bel a b sh0 x) (hy : Bel a b sh0 y) :
+theorem mkChild_spec {al : Heap → Nat} (hal : ∀ h : Heap, h.get? (al h) = none) (hp : Pre a b P sh0 old)
+    {h : Heap} {up lo todo : List Nat} (hj : J a b P sh0 old ext h.sh up lo todo)
+    {w : Nat → Nat} (hr : RCx w h) {x y : Edge} (hx : Bel a b P sh0 x) (hy : Bel a b P sh0 y) :
     ∃ h' lo' c, mkChild al a old (h, lo) x y = ((h', lo'), c) ∧
-      J a b sh0 old ext h'.sh up lo' todo ∧ MkR a h'.sh lo' todo x y c ∧
+      J a b P sh0 old ext h'.sh up lo' todo ∧ MkR a h'.sh lo' todo x y c ∧
       (∃ d : Nat → Nat, (∀ k, lo'.count k = lo.count k + d k) ∧
         RCx (fun k => w k + pt c k + d k) h') ∧
       (∀ k, h.sh k ≠ none → h'.sh k = h.sh k) ∧ (∀ k ∈ lo, k ∈ lo') := by
@@ -299,7 +299,7 @@ theorem mkChild_spec {al : Heap → Nat} (hal : ∀ h : Heap, h.get? (al h) = no
     · intro k _; rw [sh_decRc, hs1]
   · simp only [hxy, if_false]
     have hfound : ∀ j l, (j ∈ lo ∨ j ∈ todo) → h.sh j = some ⟨l, x, y⟩ → l = a →
-        J a b sh0 old ext (incRc (decRc (decRc h1 x) y) (.inner j)).sh up lo todo ∧
+        J a b P sh0 old ext (incRc (decRc (decRc h1 x) y) (.inner j)).sh up lo todo ∧
         MkR a (incRc (decRc (decRc h1 x) y) (.inner j)).sh lo todo x y (.inner j) ∧
         (∃ d : Nat → Nat, (∀ k, lo.count k = lo.count k + d k) ∧
           RCx (fun k => w k + pt (.inner j) k + d k) (incRc (decRc (decRc h1 x) y) (.inner j))) ∧
@@ -379,7 +379,7 @@ theorem mkChild_spec {al : Heap → Nat} (hal : ∀ h : Heap, h.get? (al h) = no
 end
 
 section
-variable {a b : Nat} {sh0 : Nat → Option Node} {old : List Nat} {ext : Nat → Nat}
+variable {a b : Nat} {P : Nat → Prop} {sh0 : Nat → Option Node} {old : List Nat} {ext : Nat → Nat}
 
 /-- weight of a slot during the loop: its entries in the two new tables + the rest
 (`old_upper`, tables of other levels, external handles) -/
@@ -387,14 +387,14 @@ def wOf (R : Nat → Nat) (up lo : List Nat) : Nat → Nat := fun k => up.count 
 
 /-- a child of an unvisited node is seen by the loop as it was at entry -/
 theorem J.child_facts {sh : Nat → Option Node} {up lo todo : List Nat}
-    (hp : Pre a b sh0 old) (hj : J a b sh0 old ext sh up lo todo) {i : Nat} {n : Node}
+    (hp : Pre a b P sh0 old) (hj : J a b P sh0 old ext sh up lo todo) {i : Nat} {n : Node}
     (hi : i ∈ todo) (hn : sh0 i = some n) {c : Edge} (hc : c = n.t ∨ c = n.e) :
-    (Bel a b sh0 c ∨ AtB b sh0 c) ∧ (∀ k, c = .inner k → sh k = sh0 k) ∧
+    (Bel a b P sh0 c ∨ AtB b sh0 c) ∧ (∀ k, c = .inner k → sh k = sh0 k) ∧
     (AtB b sh0 c → ∃ k, c = .inner k ∧ k ∈ up ∧ SurvL b sh0 sh k) := by
   obtain ⟨n', _, hn', hla⟩ := hj.todo_live hp hi
   rw [hn] at hn'; cases hn'
   have hk := hp.upKids i n hn hla
-  have hba : Bel a b sh0 c ∨ AtB b sh0 c := by rcases hc with rfl | rfl; exact hk.1; exact hk.2
+  have hba : Bel a b P sh0 c ∨ AtB b sh0 c := by rcases hc with rfl | rfl; exact hk.1; exact hk.2
   have hat : AtB b sh0 c → ∃ k, c = .inner k ∧ k ∈ up ∧ SurvL b sh0 sh k := by
     rintro ⟨k, m, rfl, hm, hl⟩
     have hku : k ∈ up := by
@@ -413,14 +413,14 @@ theorem J.child_facts {sh : Nat → Option Node} {up lo todo : List Nat}
   intro k hck
   rcases hba with hb | hb
   · subst hck
-    obtain ⟨m, hm, h1, h2⟩ := hb
+    obtain ⟨m, hm, h1, h2, _⟩ := hb
     rw [hj.frame k m hm h1 h2, hm]
   · obtain ⟨k', hk', _, m, hm, _, hs⟩ := hat hb
     rw [hck] at hk'; injection hk' with hk'; subst hk'
     rw [hs, hm]
 
 theorem lvlIs_of_child {h : Heap} {c : Edge} (hs : ∀ k, c = .inner k → h.sh k = sh0 k)
-    (hba : Bel a b sh0 c ∨ AtB b sh0 c) : lvlIs h b c = true ↔ AtB b sh0 c := by
+    (hba : Bel a b P sh0 c ∨ AtB b sh0 c) : lvlIs h b c = true ↔ AtB b sh0 c := by
   rw [lvlIs_eq]
   cases c with
   | term v =>
@@ -428,7 +428,7 @@ theorem lvlIs_of_child {h : Heap} {c : Edge} (hs : ∀ k, c = .inner k → h.sh 
     rintro ⟨k, m, hc, _⟩; cases hc
   | inner k =>
     simp only [hs k rfl]
-    rcases hba with ⟨m, hm, h1, h2⟩ | ⟨k', m, hc, hm, hl⟩
+    rcases hba with ⟨m, hm, h1, h2, _⟩ | ⟨k', m, hc, hm, hl⟩
     · simp only [hm, beq_iff_eq]
       constructor
       · intro h; exact absurd h h2
@@ -457,14 +457,14 @@ theorem count_erase_add {l : List Nat} {j : Nat} (hj : j ∈ l) (k : Nat) :
   · rw [List.count_erase_of_ne hk]; simp [hk]
 
 /-- the orphan check for one old child `c` of the node just rewritten -/
-theorem orphan_spec (hp : Pre a b sh0 old) {R : Nat → Nat} (hR : ∀ k, ext k ≤ R k)
-    {h : Heap} {up lo todo : List Nat} (hj : J a b sh0 old ext h.sh up lo todo)
+theorem orphan_spec (hp : Pre a b P sh0 old) {R : Nat → Nat} (hR : ∀ k, ext k ≤ R k)
+    {h : Heap} {up lo todo : List Nat} (hj : J a b P sh0 old ext h.sh up lo todo)
     (hr : RCx (wOf R up lo) h) {c : Edge}
-    (hc : Bel a b sh0 c ∨ ∃ k, c = .inner k ∧ k ∈ up ∧ SurvL b sh0 h.sh k) :
-    ∃ h' up', orphan b (h, up) c = (h', up') ∧ J a b sh0 old ext h'.sh up' lo todo ∧
+    (hc : Bel a b P sh0 c ∨ ∃ k, c = .inner k ∧ k ∈ up ∧ SurvL b sh0 h.sh k) :
+    ∃ h' up', orphan b (h, up) c = (h', up') ∧ J a b P sh0 old ext h'.sh up' lo todo ∧
       RCx (wOf R up' lo) h' ∧ (∀ k ∈ up', k ∈ up ∧ h'.sh k = h.sh k) ∧
       (∀ k ∈ up, k ∉ up' → c = .inner k) := by
-  have hkeep : ∃ h' up', (h, up) = (h', up') ∧ J a b sh0 old ext h'.sh up' lo todo ∧
+  have hkeep : ∃ h' up', (h, up) = (h', up') ∧ J a b P sh0 old ext h'.sh up' lo todo ∧
       RCx (wOf R up' lo) h' ∧ (∀ k ∈ up', k ∈ up ∧ h'.sh k = h.sh k) ∧
       (∀ k ∈ up, k ∉ up' → c = .inner k) :=
     ⟨h, up, rfl, hj, hr, fun k hk => ⟨hk, rfl⟩, fun k hk hk' => absurd hk hk'⟩
@@ -480,7 +480,7 @@ theorem orphan_spec (hp : Pre a b sh0 old) {R : Nat → Nat} (hR : ∀ k, ext k 
       have hsj : h.sh j = some m.toNode := by simp [Heap.sh, hm]
       by_cases hcond : m.level = b ∧ m.rc = 1
       · rw [if_pos hcond]
-        rcases hc with ⟨n', hn', h1, h2⟩ | ⟨k, hk, hju, hsv⟩
+        rcases hc with ⟨n', hn', h1, h2, _⟩ | ⟨k, hk, hju, hsv⟩
         · exfalso
           have := hj.frame j n' hn' h1 h2
           rw [hsj] at this; cases this
@@ -526,19 +526,19 @@ theorem orphan_spec (hp : Pre a b sh0 old) {R : Nat → Nat} (hR : ∀ k, ext k 
 end
 
 section
-variable {a b : Nat} {sh0 : Nat → Option Node} {old : List Nat} {ext : Nat → Nat}
+variable {a b : Nat} {P : Nat → Prop} {sh0 : Nat → Option Node} {old : List Nat} {ext : Nat → Nat}
 
 /-- the loop invariant: shapes (`J`) and reference counts -/
-structure LInv (a b : Nat) (sh0 : Nat → Option Node) (old : List Nat) (ext : Nat → Nat)
+structure LInv (a b : Nat) (P : Nat → Prop) (sh0 : Nat → Option Node) (old : List Nat) (ext : Nat → Nat)
     (R : Nat → Nat) (st : LS) (todo : List Nat) : Prop where
-  j : J a b sh0 old ext st.h.sh st.up st.lo todo
+  j : J a b P sh0 old ext st.h.sh st.up st.lo todo
   rc : RCx (wOf R st.up st.lo) st.h
 
-theorem stepNode_move (hp : Pre a b sh0 old) {R : Nat → Nat} {st : LS}
-    {i : Nat} {todo : List Nat} (hinv : LInv a b sh0 old ext R st (i :: todo))
+theorem stepNode_move (hp : Pre a b P sh0 old) {R : Nat → Nat} {st : LS}
+    {i : Nat} {todo : List Nat} (hinv : LInv a b P sh0 old ext R st (i :: todo))
     {m : SNode} (hm : st.h.get? i = some m) (hn : sh0 i = some m.toNode)
-    (ht : Bel a b sh0 m.t) (he : Bel a b sh0 m.e) :
-    LInv a b sh0 old ext R
+    (ht : Bel a b P sh0 m.t) (he : Bel a b P sh0 m.e) :
+    LInv a b P sh0 old ext R
       (let r := tblInsert (incRc st.h (.inner i)) st.lo i; { st with h := r.1, lo := r.2 }) todo := by
   have hj := hinv.j
   have hsi : st.h.sh i = some m.toNode := by simp [Heap.sh, hm]
@@ -555,7 +555,7 @@ theorem stepNode_move (hp : Pre a b sh0 old) {R : Nat → Nat} {st : LS}
       rw [hs, hsi, e1, ← h3]; rfl
   simp only [hfresh]
   refine ⟨?_, ?_⟩
-  · show J a b sh0 old ext (incRc st.h (.inner i)).sh st.up (i :: st.lo) todo
+  · show J a b P sh0 old ext (incRc st.h (.inner i)).sh st.up (i :: st.lo) todo
     rw [sh_incRc]
     exact hj.move hp hn ht he
   · show RCx (wOf R st.up (i :: st.lo)) (incRc st.h (.inner i))
@@ -574,11 +574,11 @@ theorem SurvL.congr {sh sh' : Nat → Option Node} {k : Nat} (h : SurvL b sh0 sh
   exact ⟨n, h1, h2, he ▸ h3⟩
 
 theorem stepNode_rewrite {al : Heap → Nat} (hal : ∀ h : Heap, h.get? (al h) = none)
-    (hp : Pre a b sh0 old) {R : Nat → Nat} (hR : ∀ k, ext k ≤ R k) {st : LS}
-    {i : Nat} {todo : List Nat} (hinv : LInv a b sh0 old ext R st (i :: todo))
+    (hp : Pre a b P sh0 old) {R : Nat → Nat} (hR : ∀ k, ext k ≤ R k) {st : LS}
+    {i : Nat} {todo : List Nat} (hinv : LInv a b P sh0 old ext R st (i :: todo))
     {m : SNode} (hm : st.h.get? i = some m) (hn : sh0 i = some m.toNode)
-    (hnb : ¬ (Bel a b sh0 m.t ∧ Bel a b sh0 m.e)) :
-    LInv a b sh0 old ext R
+    (hnb : ¬ (Bel a b P sh0 m.t ∧ Bel a b P sh0 m.e)) :
+    LInv a b P sh0 old ext R
       (let gt := cof0 b sh0 m.t
        let ge := cof0 b sh0 m.e
        let r0 := mkChild al a old (st.h, st.lo) gt.1 ge.1
@@ -596,8 +596,8 @@ theorem stepNode_rewrite {al : Heap → Nat} (hal : ∀ h : Heap, h.get? (al h) 
   rw [hn] at hn'; cases hn'
   have hla : m.level = a := hla
   have hk := hp.upKids i _ hn hla
-  have hbt : Bel a b sh0 (cof0 b sh0 m.t).1 ∧ Bel a b sh0 (cof0 b sh0 m.t).2 := bel_cof0 hp hk.1
-  have hbe : Bel a b sh0 (cof0 b sh0 m.e).1 ∧ Bel a b sh0 (cof0 b sh0 m.e).2 := bel_cof0 hp hk.2
+  have hbt : Bel a b P sh0 (cof0 b sh0 m.t).1 ∧ Bel a b P sh0 (cof0 b sh0 m.t).2 := bel_cof0 hp hk.1
+  have hbe : Bel a b P sh0 (cof0 b sh0 m.e).1 ∧ Bel a b P sh0 (cof0 b sh0 m.e).2 := bel_cof0 hp hk.2
   have hcf_t := hj.child_facts hp hit hn (c := m.t) (Or.inl rfl)
   have hcf_e := hj.child_facts hp hit hn (c := m.e) (Or.inr rfl)
   have hiu : i ∉ st.up := fun h => hj.dUT i h hit
@@ -638,7 +638,7 @@ theorem stepNode_rewrite {al : Heap → Nat} (hal : ∀ h : Heap, h.get? (al h) 
       exact hki (J1.rew_vs_up hp hn hla M0' M1 hk hs)
   simp only [hfresh]
   have sh5 : (incRc h4 (.inner i)).sh = upd h1'.sh i (some ⟨b, c1, c2⟩) := by rw [sh_incRc, sh4]
-  have J5 : J a b sh0 old ext (incRc h4 (.inner i)).sh (i :: st.up) lo1 todo := by
+  have J5 : J a b P sh0 old ext (incRc h4 (.inner i)).sh (i :: st.up) lo1 todo := by
     rw [sh5]; exact J1.rewrite hp hn hnb M0' M1
   have RC5 : RCx (wOf R (i :: st.up) lo1) (incRc h4 (.inner i)) := by
     have := RC4.incRc (.inner i) (fun k hk => by
@@ -657,9 +657,9 @@ theorem stepNode_rewrite {al : Heap → Nat} (hal : ∀ h : Heap, h.get? (al h) 
       simp [h1, h2]; omega
   generalize incRc h4 (.inner i) = h5 at sh5 J5 RC5
   -- the old children as seen after the rewrite
-  have hchild : ∀ c, (Bel a b sh0 c ∨ AtB b sh0 c) →
+  have hchild : ∀ c, (Bel a b P sh0 c ∨ AtB b sh0 c) →
       (AtB b sh0 c → ∃ k, c = .inner k ∧ k ∈ st.up ∧ SurvL b sh0 st.h.sh k) →
-      Bel a b sh0 c ∨ ∃ k, c = .inner k ∧ k ∈ i :: st.up ∧ SurvL b sh0 h5.sh k := by
+      Bel a b P sh0 c ∨ ∃ k, c = .inner k ∧ k ∈ i :: st.up ∧ SurvL b sh0 h5.sh k := by
     intro c hc hat
     rcases hc with hc | hc
     · exact Or.inl hc
@@ -675,7 +675,7 @@ theorem stepNode_rewrite {al : Heap → Nat} (hal : ∀ h : Heap, h.get? (al h) 
   · simp only [hte, if_true]
     exact ⟨J6, RC6⟩
   · simp only [hte, if_false]
-    have hce : Bel a b sh0 m.e ∨ ∃ k, m.e = .inner k ∧ k ∈ up6 ∧ SurvL b sh0 h6.sh k := by
+    have hce : Bel a b P sh0 m.e ∨ ∃ k, m.e = .inner k ∧ k ∈ up6 ∧ SurvL b sh0 h6.sh k := by
       rcases hchild m.e hcf_e.1 hcf_e.2.2 with h | ⟨k, hck, hku, hsv⟩
       · exact Or.inl h
       · have hk6 : k ∈ up6 := by
